@@ -34,6 +34,8 @@ def stress_cases(tier):
     kinds = [("subject", 3), ("merge", 3), ("zip", 2), ("combine_latest", 2), ("take_until", 2), ("merge_all", 3), ("share", 3)]
     cases = [("x%d" % i, "(case x%d conc %s %d %d %d)" % (i, k, p, items, rounds), {"kind": "threads", "pipe": k}) for i, (k, p) in enumerate(kinds)]
     cases.append(("x99", "(case x99 sched_race %d)" % (10 if tier == "quick" else 60), {"kind": "threads", "pipe": "task-handle"}))
+    cases.append(("x96", "(case x96 handshake observe_on %d)" % (5 if tier == "quick" else 40), {"kind": "threads", "pipe": "observe_on-pool"}))
+    cases.append(("x97", "(case x97 handshake delay %d)" % (5 if tier == "quick" else 40), {"kind": "threads", "pipe": "delay-pool"}))
     cases.append(("x98", "(case x98 unsub_race %d)" % (10 if tier == "quick" else 60), {"kind": "threads", "pipe": "subscribe_on-pool"}))
     return cases
 
@@ -61,7 +63,8 @@ def run(tier, seed, replay=None):
                  "model's programs - the programs the theorems are about; (b) real threads: 2-3 producers pushing thousands of items while another "
                  "thread keeps subscribing and unsubscribing, on a subject, merge, zip, combine_latest, take_until, merge_all, share; probes flag "
                  "overlapping entry, compare orders between subscribers, and every thread must return (20 s watchdog); a task body on a thread "
-                 "pool against unsubscribe() of its handle. The schedules of (b) are the operating system's: supporting evidence, not enumeration; "
+                 "pool against unsubscribe() of its handle; observe_on_threads / delay_threads on a pool with a callback that waits for the producer's "
+                 "next call to return (a hand-shake, not a re-entry): the producer must not be held up by a running delivery. The schedules of (b) are the operating system's: supporting evidence, not enumeration; "
                  "(c) " + ileave.RULE + "; (d) " + ileave2.RULE)
     rep.assumptions = ["callers do not re-enter the pipeline from inside a callback (the property's own proviso)",
                        "the lock hook reports acquisitions only: the nesting of the critical sections is the model's (Rust guard scopes read from the source)",
